@@ -338,6 +338,7 @@ func reduceDirectedMultiplex(g DirectedMultiplex, communities [][]graph.Node, we
 			}
 			for _, n := range nodes {
 				id := communityOf[n.ID()]
+				r.nodes[id].weights[l] = sign * weight(n.ID(), n.ID())
 
 				var out []int
 				u := n
